@@ -118,6 +118,11 @@ DRV_OP(vgate) {
     nix::FileMode mode = modeOf(a[4]);
     // the flag word as given: Force is bit 0, whatever else is set
     nix::OpenFlags flags = static_cast<nix::OpenFlags>(tokNat(a[5]));
+    // vgate2: ANOTHER session on the same file is open meanwhile (forced, read-write) — the gate judges each open on its own
+    nix::File other;
+    if (a[0] == "vgate2") {
+        try { other = nix::File::open(p, nix::FileMode::ReadWrite, "hdf5", nix::Compression::Auto, nix::OpenFlags::Force); } catch (...) {}
+    }
     std::string r = guarded([&]() {
         nix::File f = nix::File::open(p, mode, "hdf5", nix::Compression::Auto, flags);
         std::vector<int> v = f.version();
@@ -129,6 +134,10 @@ DRV_OP(vgate) {
         o << "] " << nb;
         return o.str();
     });
+    if (other) { try { other.close(); } catch (...) {} }
     std::remove(p.c_str());
     return r;
 }
+// vgate2 … : the same with a forced read-write session on the file open while the open that is judged takes place
+static std::string op_vgate2(const drv::Args &a) { return op_vgate(a); }
+static drv::Register reg_vgate2("vgate2", op_vgate2);
